@@ -140,6 +140,12 @@ namespace adept {
   Stack::compute_adjoint()
   {
     if (gradients_are_initialized()) {
+      // Active objects created since the gradient vector was
+      // initialized may have statements on the stack whose indices
+      // lie beyond the end of that vector
+      if (max_gradient_ > n_allocated_gradients_) {
+	throw(gradient_out_of_range());
+      }
       // Loop backwards through the derivative statements
       for (uIndex ist = n_statements_-1; ist > 0; ist--) {
 	const Statement& statement = statement_[ist];
@@ -171,6 +177,12 @@ namespace adept {
   Stack::compute_tangent_linear()
   {
     if (gradients_are_initialized()) {
+      // Active objects created since the gradient vector was
+      // initialized may have statements on the stack whose indices
+      // lie beyond the end of that vector
+      if (max_gradient_ > n_allocated_gradients_) {
+	throw(gradient_out_of_range());
+      }
       // Loop forward through the statements
       for (uIndex ist = 1; ist < n_statements_; ist++) {
 	const Statement& statement = statement_[ist];
@@ -479,7 +491,9 @@ namespace adept {
   Stack::print_gradients(std::ostream& os) const
   {
     if (gradients_are_initialized()) {
-      for (uIndex i = 0; i < max_gradient_; i++) {
+      // Only the gradients that existed when the vector was
+      // initialized are stored
+      for (uIndex i = 0; i < max_gradient_ && i < n_allocated_gradients_; i++) {
 	if (i%10 == 0) {
 	  if (i != 0) {
 	    os << "\n";
